@@ -278,6 +278,9 @@ pub enum ValSrc {
     RootVar(String),
     /// clone of the i-th (mod len) retained value of this thread; Null if none
     Retained(usize),
+    /// clone of the i-th (mod len) value the MAIN thread obtained from the program set before the
+    /// run (a value created by one thread and used by another); Null if none
+    Handoff(usize),
 }
 
 #[derive(Clone, Copy, Debug, Serialize, Deserialize, PartialEq)]
